@@ -95,6 +95,9 @@ func cmdVC(args []string) {
 			}
 			continue
 		}
+		if o.Dead {
+			fmt.Printf("DEAD-PATH %s  [%s]\n", o.Name, o.Pos)
+		}
 		fmt.Printf("%-8s %-7s %5dms %s  [%s]\n", o.Result, o.Solver, o.TimeMs, o.Name, o.Pos)
 		if (o.Result != "unsat" || os.Getenv("GOVC_SHOWALL") != "") && *verbose {
 			fmt.Println("   guard:", clip(o.Guard, 300))
